@@ -3615,7 +3615,7 @@ def inner(a, b, axes='labels', do_conj=False):
                     lega.test_contractible(legb)
             except ValueError as e:
                 raise ValueError(f'incompatible legs {a._labels[i]!r} and {b._labels[i]!r}') from e
-    return _inner_worker(a, b, do_conj)
+    return _inner_worker(_without_zero_size_blocks(a), _without_zero_size_blocks(b), do_conj)
 
 
 def tensordot(a, b, axes=2):
@@ -3649,6 +3649,9 @@ def tensordot(a, b, axes=2):
     """
     # for details on the implementation, see _tensordot_worker.
     a, b, axes = _tensordot_transpose_axes(a, b, axes)
+    # blocks of size 0 (legs with empty charge blocks) don't contribute and break the BLAS-based workers
+    a = _without_zero_size_blocks(a)
+    b = _without_zero_size_blocks(b)
 
     # optimize/check for special cases
     no_block = a.stored_blocks == 0 or b.stored_blocks == 0  # result is zero
@@ -4654,6 +4657,17 @@ def _inner_worker(a, b, do_conj):
         res += blas_dot(a_data[i], b_data[j])
         # same as res += np.inner(a_data[i].reshape((-1, )), b_data[j].reshape((-1, )))
         # (or with complex conj if 'do_conj')
+    return res
+
+
+def _without_zero_size_blocks(a):
+    """Return `a`, or a shallow copy of it without the stored blocks of size 0, if there are any."""
+    keep = [i for i, block in enumerate(a._data) if block.size > 0]
+    if len(keep) == len(a._data):
+        return a
+    res = a.copy(deep=False)
+    res._data = [a._data[i] for i in keep]
+    res._qdata = np.ascontiguousarray(a._qdata[np.array(keep, dtype=np.intp), :])
     return res
 
 
